@@ -443,9 +443,14 @@ fn aggregate_rows(rows: Vec<StringBinding>, query: &SelectQuery<'_>) -> Vec<Stri
                             .iter()
                             .filter_map(|value| value.parse::<f64>().ok())
                             .collect::<Vec<_>>();
-                        (!numbers.is_empty()).then(|| {
-                            (numbers.iter().sum::<f64>() / numbers.len() as f64).to_string()
-                        })
+                        if values.is_empty() {
+                            // SPARQL defines the average of an empty multiset as 0.
+                            Some("0".to_string())
+                        } else {
+                            (!numbers.is_empty()).then(|| {
+                                (numbers.iter().sum::<f64>() / numbers.len() as f64).to_string()
+                            })
+                        }
                     }
                     "MIN" => values
                         .iter()
